@@ -502,7 +502,7 @@ static const char *texts[] = { "", "a", "abc", "  padded  ", "Hello World", "x=1
     "http://user:pw@host.example:8080/path/to?q=1", "mailto:foo@bar.com?Subject=Hi", "/just/a/path", "proto:rest", "a:b:c::d", "UPPER lower" };
 static void gen_common(plan_t *p, rng_t *r, int c05)
 {
-    int nops = rng_range(r, 4, c05 ? 30 : 60), kinds[NSLOT], ex[NSLOT] = { 0 }, focus = (int)rng_below(r, K_NKINDS);
+    int nops = rng_range(r, 4, (c05 ? 30 : 60) * sim_tier_scale()), kinds[NSLOT], ex[NSLOT] = { 0 }, focus = (int)rng_below(r, K_NKINDS);
     plan_knob(p, "strelems", rng_chance(r, 1, 4));
     plan_knob(p, "alloc.fill", rng_range(r, 0, 4));
     plan_knob(p, "alloc.realloc", rng_range(r, 0, 2));
